@@ -14,7 +14,7 @@ Open Scope Z_scope.
 
 Theorem C08_accepted_op_converts : forall c ts st,
   expands_to_instructions c = true ->
-  Forall tok_wf ts -> st_wf st ->
+  Forall tok_wf ts -> st_wf_labels st ->
   has_errors (default_typecheck (mkop c ts) st) = false ->
   exists ts' l, subst_tokens ts st = Ok ts' /\ convert_full (mkop c ts') = Ok l.
 Proof. exact accepted_op_converts. Qed.
@@ -22,7 +22,7 @@ Print Assumptions C08_accepted_op_converts.
 
 Theorem C08_accepted_op_valid : forall c ts st ts' l,
   expands_to_instructions c = true ->
-  Forall tok_wf ts -> st_wf st ->
+  Forall tok_wf ts -> st_wf_labels st ->
   has_errors (default_typecheck (mkop c ts) st) = false ->
   rel_symbol_is_constant c ts st ->
   subst_tokens ts st = Ok ts' ->
@@ -84,3 +84,24 @@ Theorem C08_declared_names_distinct : forall ops seen, has_errors (check_redecl 
     (forall y, In y (decls b) -> py_eqb y s = false).
 Proof. exact redecl_clean. Qed.
 Print Assumptions C08_declared_names_distinct.
+
+(* THE PROGRAM-LEVEL STATEMENT.  In a program the checker accepts, every operation that expands to machine
+   instructions is substituted from the final symbol table without a missing symbol, expands without raising,
+   and every instruction it expands to has operands that fit their machine fields (relative branches whose
+   operand names a label take the other path of convert_ops: C08_rel_label_valid).  Together with
+   C08_valid_assembles / C08_valid_executes / C08_run_never_raises this is "accepted programs never go wrong
+   later" for the instruction stream. *)
+Theorem C08_accepted_program_op_valid : forall c ops st msgs a o b,
+  Forall (fun o => Forall tok_wf (o_toks o)) ops ->
+  typecheck c ops = (st, msgs) -> has_errors msgs = false -> ops = a ++ o :: b ->
+  expands_to_instructions (o_cls o) = true ->
+  rel_symbol_is_constant (o_cls o) (o_toks o) st ->
+  exists ts' l, subst_tokens (o_toks o) st = Ok ts' /\ convert_full (mkop (o_cls o) ts') = Ok l /\ Forall is_valid_real l.
+Proof. exact accepted_program_op_valid. Qed.
+Print Assumptions C08_accepted_program_op_valid.
+
+(* code labels of an accepted program are addresses below 2^16 *)
+Theorem C08_accepted_labels_ok : forall c ops st msgs,
+  typecheck c ops = (st, msgs) -> has_errors msgs = false -> st_wf_labels st.
+Proof. exact accepted_labels_ok. Qed.
+Print Assumptions C08_accepted_labels_ok.
